@@ -741,6 +741,14 @@ class BaseParser:
         if tree is not None:
             check_contexts(tree)
         # hack for getting modes right
+        if (
+            mode == "eval"
+            and isinstance(tree, ast.Module)
+            and len(tree.body) == 1
+            and isinstance(tree.body[0], ast.Expr)
+        ):
+            # an expression followed by a newline comes back from rule file_input
+            tree = ast.Expression(body=tree.body[0].value)
         if mode == "single":
             if isinstance(tree, ast.Expression):
                 tree = ast.Interactive(body=[self.expr(tree.body)])
